@@ -202,8 +202,11 @@ class Body:
 class Facts:
     def __init__(self, j, root='/repo'):
         self.inline_report = {'inlined': {}, 'kept': []}
+        self.renamed = {}
         if j.get('crate') == 'asefile':
             import inline
+            import rename
+            j, self.renamed = rename.apply(j)
             j, self.inline_report = inline.apply(j)
         self.j = j
         self.root = root
